@@ -218,11 +218,22 @@ func spec_cand(l *LALR1, tr Transistor, a *Action, sy int) bool {
 //@             (forall k int :: 0 <= k && k < len(l.LookAheadSet[tranlist[t].Index]) ==> 0 <= l.LookAheadSet[tranlist[t].Index][k] && l.LookAheadSet[tranlist[t].Index][k] < len(l.G.Symbols))) &&
 //@        (tranlist[t].sym_or_rule&CheckMask == 0 ==> 0 <= int(tranlist[t].sym_or_rule) && int(tranlist[t].sym_or_rule) < len(l.G.Symbols)))
 
+// covered(l, t, set): every candidate of transition t has a cell - the shift symbol, or every lookahead of the reduction
+//@ def covered(l *LALR1, t Transistor, set map[int][]*Action) = (t.sym_or_rule&CheckMask == 0 ==> has(set, int(t.sym_or_rule))) &&
+//@     (t.sym_or_rule&CheckMask != 0 ==> (forall j int :: {l.LookAheadSet[t.Index][j]} 0 <= j && j < len(l.LookAheadSet[t.Index]) ==> has(set, l.LookAheadSet[t.Index][j])))
+
 //@ func (*LALR1).CheckAndResolveConflict
-//@ props C04 C01
+//@ props C04 C01 C02
 //@ results set, err
 //@ requires wfTranlist(lalr, tranlist)
 //@ ensures err == nil
+// no candidate is dropped: every transition handed in has its cell(s) in the result (C02)
+//@ ensures [C02] forall i int :: {tranlist[i]} 0 <= i && i < len(tranlist) ==> covered(lalr, tranlist[i], set)
+//@ loop 0: invariant [C02] forall i int :: {tranlist[i]} 0 <= i && i < idx0 ==> covered(lalr, tranlist[i], action_set)
+//@ loop 1: invariant [C02] forall i int :: {tranlist[i]} 0 <= i && i < idx0 ==> covered(lalr, tranlist[i], action_set)
+//@ loop 1: invariant [C02] forall j int :: {lalr.LookAheadSet[tr.Index][j]} 0 <= j && j < idx1 ==> has(action_set, lalr.LookAheadSet[tr.Index][j])
+//@ loop 2: invariant [C02] forall i int :: {tranlist[i]} 0 <= i && i < len(tranlist) ==> covered(lalr, tranlist[i], action_set)
+//@ loop 3: invariant [C02] forall i int :: {tranlist[i]} 0 <= i && i < len(tranlist) ==> covered(lalr, tranlist[i], action_set)
 //@ ensures [C04,C01] forall sy int :: has(set, sy) ==> len(set[sy]) >= 1 && validAct(lalr, tranlist, set[sy][0], sy)
 //@ ensures [C01] forall sy int :: has(set, sy) ==> 0 <= sy && sy < len(lalr.G.Symbols)
 //@ modifies nothing
@@ -444,13 +455,26 @@ func spec_walk(l *LALR1, q int, r int, k int) int { panic("spec") }
 
 //@ def wfGen(l *LALR1) = wfTrans(l) && l.G.LR0 != nil &&
 //@     (forall t int :: 0 <= t && t < len(l.trans) ==>
-//@         (l.trans[t].sym_or_rule&CheckMask == 0 ==> l.trans[t].to != 0 && int(l.trans[t].sym_or_rule) != 0) &&
+//@         (l.trans[t].sym_or_rule&CheckMask == 0 ==> l.trans[t].to != 0 && int(l.trans[t].sym_or_rule) != 0 && l.trans[t].to < len(l.G.LR0.LR0Closure)) &&
 //@         (l.trans[t].sym_or_rule&CheckMask != 0 ==> (forall k int :: 0 <= k && k < len(l.LookAheadSet[l.trans[t].Index]) ==>
 //@             1 <= l.LookAheadSet[l.trans[t].Index][k] && l.LookAheadSet[l.trans[t].Index][k] < len(l.G.Symbols))))
+
+// C02, nothing dropped: every transition of a state is handed to the conflict resolution (inTS), every candidate gets a cell
+// there (covered), and every cell whose surviving action is not the %nonassoc ERROR action is written into the row (filled):
+// so a shift symbol or reduce lookahead of a state never ends up as an error entry by omission
+//@ def inTS(ts map[int][]Transistor, q int, t Transistor) = has(ts, q) && (exists k int :: 0 <= k && k < len(ts[q]) && ts[q][k] == t)
+//@ def filled(l *LALR1, set map[int][]*Action, row []int) = forall sy int :: {set[sy]} has(set, sy) && set[sy][0].ActionType != ERROR ==> row[sy] != len(l.G.LR0.LR0Closure) + 100
 
 //@ func (*LALR1).GenTable
 //@ props C01 C06 C02
 //@ results tab, err
+//@ loop 0: invariant [C02] forall q2, i int :: {lalr.trans[i], trans_set[q2]} 0 <= q2 && q2 < idx0 && 0 <= i && i < len(lalr.trans) && lalr.trans[i].q == q2 ==> inTS(trans_set, q2, lalr.trans[i])
+//@ loop 1: invariant [C02] forall q2 int :: {trans_set[q2]} q2 != idx0 ==> has(trans_set, q2) == before(has(trans_set, q2)) && trans_set[q2] == before(trans_set)[q2]
+//@ loop 1: invariant [C02] (has(trans_set, idx0) || !before(has(trans_set, idx0))) && len(trans_set[idx0]) >= before(len(trans_set[idx0])) && (forall k int :: 0 <= k && k < before(len(trans_set[idx0])) ==> trans_set[idx0][k] == before(trans_set[idx0])[k])
+//@ loop 1: invariant [C02] forall i int :: {lalr.trans[i]} 0 <= i && i < idx1 && lalr.trans[i].q == idx0 ==> inTS(trans_set, idx0, lalr.trans[i])
+//@ loop 2: invariant [C02] forall q2, i int :: {lalr.trans[i], trans_set[q2]} 0 <= q2 && q2 < len(lalr.G.LR0.LR0Closure) && 0 <= i && i < len(lalr.trans) && lalr.trans[i].q == q2 ==> inTS(trans_set, q2, lalr.trans[i])
+//@ loop 4: invariant [C02] forall sy int :: {set[sy]} seen(sy) && set[sy][0].ActionType != ERROR ==> row[sy] != len(lalr.G.LR0.LR0Closure) + 100
+//@ before_stmt [C02] "tableGen = append(tableGen, row)" filled(lalr, set, row) && (forall i int :: {lalr.trans[i]} 0 <= i && i < len(lalr.trans) && lalr.trans[i].q == q ==> covered(lalr, lalr.trans[i], set))
 //@ requires wfGen(lalr) && !utils.DebugFlags
 //@ ensures [C01,C06] err == nil && len(tab) == len(lalr.G.LR0.LR0Closure)
 //@ ensures [C01,C06] forall q int :: 0 <= q && q < len(tab) ==> len(tab[q]) == len(lalr.G.Symbols)
